@@ -135,8 +135,23 @@ claim(
     "DESIGN.md §7 C20",
 )
 
+claim(
+    "C05",
+    "Lean 4 proof (logical relation between evaluation under the override environment and evaluation of the substituted circuit; inversion of the rebuild through the builder model) + whole-dump differential correspondence with fill_in_let under random override dictionaries",
+    "Theorems C05_meaning, C05_no_consts, C05_shadow(_gate/_qubit), C05_frame, C05_revalidate, C05_shrink_rejected, C05_idempotent_val prove for every well-formed circuit and every override dictionary that the result means, under the empty environment, what the original means with each constant bound to its overriding value if given else its declared value; that no constant is left in any gate argument, index, size, bound, loop or subcircuit count (body, macros, registers); that macro parameters shadowing a constant are untouched; that block kinds, subcircuit annotations, macros, natives and usepulses are preserved; and that indices are re-checked against the NEW sizes (an override shrinking a register below a used index is rejected).",
+    COMMON_NOTE + "C05_idempotent_full is a named proposition (needs totality of the rebuild); checked on the model and by a direct oracle.",
+    "DESIGN.md §7 C05",
+)
+claim(
+    "C06",
+    "Lean 4 proof (induction over alias chains: closed-form resolution = list denotation of the specification; consumers factor through one function) + differential correspondence with resolve_qubit / fill_in_map / the emulator",
+    "Theorems C06_resolve_slice/_whole/_single, C06_resolve_closed_form, C06_resolve_eq_spec, C06_register_denotation, C06_total, C06_valid_of_builder, C06_in_range, C06_mapVal_qubit, C06_fill_in_map, C06_agree_used/_fill/_emulator, C06_alias_same_as_direct prove for alias chains of any depth (whole, single-qubit, strided incl. negative steps, literal / defaulted / let-valued bounds and sizes) that element i of src[start:stop:step] is element start+i·step of src, that the composed closed form equals the specification's extensional reading, that the index lies in the fundamental register, that alias fill-in rewrites every qubit argument (body and macros) to that fundamental qubit and preserves meaning, and that used-qubit analysis, fill-in and the emulator's extraction are the same function of the reference.",
+    COMMON_NOTE + "That the real consumers all call resolve_qubit is a correspondence-level fact checked by oracles (consumers_agree, alias_same_as_direct) on the real emulator.",
+    "DESIGN.md §7 C06",
+)
+
 ALL = [f"C{n:02d}" for n in range(1, 21)]
-READY = {"C02", "C03", "C04", "C07", "C08", "C09", "C11", "C12", "C13", "C14", "C15", "C17", "C18", "C19", "C20"}  # checks that are built, pass on the unchanged tree and are registered
+READY = {"C02", "C03", "C04", "C05", "C06", "C07", "C08", "C09", "C11", "C12", "C13", "C14", "C15", "C17", "C18", "C19", "C20"}  # checks that are built, pass on the unchanged tree and are registered
 
 
 def main():
